@@ -279,6 +279,74 @@ pub enum C13Case {
     Equal(PairOfPrograms),
     /// part B(ii): two denotations one edit apart; if some value separates them, the digests must differ
     Mutant { env: Env, d1: D, d2: D, p1: String, p2: String, values: Vec<JsVal> },
+    /// part B(iii): a history over the runtime type-building API (b.*, createNamedType, overrideNamedType) with
+    /// digests read on the way; the final digests must be those of the final structure
+    BHistory { ops: Vec<Value>, values: Vec<JsVal> },
+}
+
+/// specs over a small vocabulary, so that a fixed pool of values separates most of them
+fn gen_history_spec(s: &mut Src, depth: usize, names: &[String], built: &[String]) -> Value {
+    let leaf = |s: &mut Src| match s.below(8) {
+        0 => json!({"k":"string"}),
+        1 => json!({"k":"number"}),
+        2 => json!({"k":"boolean"}),
+        3 => json!({"k":"null"}),
+        4 => json!({"k":"const","v":"a"}),
+        5 => json!({"k":"unknown"}),
+        6 if !names.is_empty() => json!({"k":"ref","name": names[s.below(names.len())]}),
+        7 if !built.is_empty() => json!({"k":"use","id": built[s.below(built.len())]}),
+        _ => json!({"k":"const","v":1}),
+    };
+    if depth == 0 {
+        return leaf(s);
+    }
+    match s.below(6) {
+        0 => leaf(s),
+        1 => json!({"k":"array","item": gen_history_spec(s, depth - 1, names, built)}),
+        2 | 3 => {
+            let n = s.range(1, 3);
+            let keys = ["a", "b", "n"];
+            let fields: Vec<Value> = (0..n).map(|i| json!([keys[i], gen_history_spec(s, depth - 1, names, built)])).collect();
+            json!({"k":"object","fields": fields})
+        }
+        _ => {
+            let n = s.range(2, 3);
+            let items: Vec<Value> = (0..n).map(|_| gen_history_spec(s, depth - 1, names, built)).collect();
+            json!({"k":"union","items": items})
+        }
+    }
+}
+
+fn history_value_pool() -> Vec<JsVal> {
+    let o = |kv: Vec<(&str, JsVal)>| JsVal::Obj(kv.into_iter().map(|(k, v)| (k.to_string(), v)).collect(), crate::jsval::Proto::Plain);
+    let st = |x: &str| JsVal::Str(x.to_string());
+    let n1 = JsVal::num("1");
+    vec![
+        st("a"),
+        st("x"),
+        n1.clone(),
+        JsVal::num("2"),
+        JsVal::Bool(true),
+        JsVal::Null,
+        JsVal::Undef,
+        JsVal::Arr(vec![]),
+        JsVal::Arr(vec![st("a")]),
+        JsVal::Arr(vec![n1.clone()]),
+        JsVal::Arr(vec![JsVal::Null]),
+        JsVal::Arr(vec![JsVal::Arr(vec![])]),
+        o(vec![]),
+        o(vec![("a", st("a"))]),
+        o(vec![("a", n1.clone())]),
+        o(vec![("a", JsVal::Null)]),
+        o(vec![("a", st("a")), ("b", st("a"))]),
+        o(vec![("a", st("a")), ("b", n1.clone())]),
+        o(vec![("a", o(vec![("a", st("a"))]))]),
+        o(vec![("a", o(vec![("a", n1.clone())]))]),
+        o(vec![("a", JsVal::Arr(vec![]))]),
+        o(vec![("a", JsVal::Arr(vec![st("a")]))]),
+        o(vec![("a", st("a")), ("b", st("a")), ("n", JsVal::Null)]),
+        o(vec![("a", n1.clone()), ("b", n1.clone()), ("n", n1)]),
+    ]
 }
 
 fn digest_string(s: &mut Src, len: usize) -> String {
@@ -410,8 +478,44 @@ impl Check for C13 {
         vec![out]
     }
     fn generate(&self, s: &mut Src, _tier: Tier) -> Value {
-        let case = match s.below(3) {
-            0 => {
+        let case = match s.below(7) {
+            6 => {
+                // the README's pattern for runtime recursive types: createNamedType(name, placeholder), parsers that
+                // mention it, overrideNamedType(name, real type); digests may be read at any point
+                let n_names = s.range(1, 2);
+                let mut names: Vec<String> = vec![];
+                let mut built: Vec<String> = vec![];
+                let mut ops: Vec<Value> = vec![];
+                for i in 0..n_names {
+                    let name = format!("N{}", i);
+                    let spec = if s.chance(1, 2) { json!({"k":"unknown"}) } else { gen_history_spec(s, 1, &names, &built) };
+                    ops.push(json!({"op":"create","name":name,"spec":spec}));
+                    names.push(name);
+                }
+                let steps = s.range(3, 9);
+                for _ in 0..steps {
+                    match s.below(7) {
+                        0 | 1 => {
+                            let id = format!("p{}", built.len());
+                            let spec = gen_history_spec(s, 2, &names, &built);
+                            ops.push(json!({"op":"build","id":id,"spec":spec}));
+                            built.push(id);
+                        }
+                        2 | 3 => {
+                            let name = names[s.below(names.len())].clone();
+                            let spec = gen_history_spec(s, 2, &names, &built);
+                            ops.push(json!({"op":"override","name":name,"spec":spec}));
+                        }
+                        _ => {
+                            let all: Vec<&String> = names.iter().chain(built.iter()).collect();
+                            let id = all[s.below(all.len())].clone();
+                            ops.push(json!({"op":"observe","id":id}));
+                        }
+                    }
+                }
+                C13Case::BHistory { ops, values: history_value_pool() }
+            }
+            0 | 3 => {
                 let n = s.range(1, 12);
                 let mut ops = vec![];
                 for _ in 0..n {
@@ -429,7 +533,7 @@ impl Check for C13 {
                 }
                 C13Case::Digest { ops }
             }
-            1 => {
+            1 | 4 => {
                 let cfg = GenCfg::default();
                 let (env, roots) = gen_env_and_roots(s, &cfg, 1);
                 let roots: Vec<(String, D)> = roots.into_iter().enumerate().map(|(i, d)| (format!("P{}", i), d)).collect();
@@ -545,6 +649,63 @@ impl Check for C13 {
                         // located through the hash256 encodings of the same two validators
                         let class = token_diff_class(&a.hash256[i], &b.hash256[i], &pp.env, d);
                         out.mismatch(ctx, &format!("hash_differs:{}", class), "hash() differs between two spellings that differ only in names, alias boundaries, order or comments", json!({"p1": pp.p1, "p2": pp.p2, "type": d}));
+                    }
+                }
+            }
+            C13Case::BHistory { ops, values } => {
+                out.label("part:b_history");
+                let tagged: Vec<Value> = values.iter().map(|v| v.to_tagged()).collect();
+                let resp = match node_case(ctx, None, vec![json!({"q":"bHistory","ops":ops,"values":tagged})]) {
+                    Ok(r) => r,
+                    Err(e) => return Outcome::infra(e),
+                };
+                let r = &resp["results"][0];
+                out.evals += 1;
+                if let Some(t) = r.get("threw") {
+                    // a cyclic structure without a named type in the cycle cannot arise from these ops; building never throws
+                    out.mismatch(ctx, "b_history_threw", format!("the history threw: {}", t), json!({"ops": ops}));
+                    return out;
+                }
+                let observed_something = r["observations"].as_array().map(|a| !a.is_empty()).unwrap_or(false);
+                let overrides = ops.iter().filter(|o| o["op"] == "override").count();
+                if observed_something && overrides > 0 {
+                    out.nontrivial = Some(fp(&serde_json::to_string(&ops).unwrap()));
+                    out.sample = Some(json!({"history": ops}));
+                }
+                let empty = serde_json::Map::new();
+                // (1) the digests at the end are those of the final structure, whatever was read on the way
+                for (id, fin) in r["finals"].as_object().unwrap_or(&empty) {
+                    let fresh = &r["fresh"][id];
+                    // (the 32-bit hash() may depend on type names, and a name cannot be registered twice in one process:
+                    // only hash256, which is name-free, can be compared between the two runs)
+                    for (k, sig) in [("hash256", "b_history_hash256_depends_on_observations")] {
+                        if fin[k] != fresh[k] {
+                            out.mismatch(ctx, sig, format!("{}() of {} after the history differs from {}() of the same structure built without reading digests on the way ({} vs {})", k, id, k, fin[k], fresh[k]), json!({"ops": ops, "id": id}));
+                        }
+                    }
+                    if fin["validate"] != fresh["validate"] {
+                        return Outcome::infra(format!("the two runs of one history validate differently: {} vs {}", fin["validate"], fresh["validate"]));
+                    }
+                }
+                // (2) two states of one parser that disagree on a value have different digests
+                let mut by_id: BTreeMap<String, Vec<&Value>> = BTreeMap::new();
+                for o in r["observations"].as_array().map(|a| a.as_slice()).unwrap_or(&[]) {
+                    by_id.entry(o["id"].as_str().unwrap_or("").to_string()).or_default().push(o);
+                }
+                for (id, fin) in r["finals"].as_object().unwrap_or(&empty) {
+                    by_id.entry(id.clone()).or_default().push(fin);
+                }
+                for (id, snaps) in &by_id {
+                    for i in 0..snaps.len() {
+                        for j in i + 1..snaps.len() {
+                            let (x, y) = (snaps[i], snaps[j]);
+                            if x["validate"] != y["validate"] && x["hash256"].is_string() && x["hash256"] == y["hash256"] {
+                                out.label("history_separated");
+                                out.mismatch(ctx, "b_history_different_behaviour_same_hash256", format!("{} validates differently at two points of the history but reports the same hash256", id), json!({"ops": ops, "id": id, "first": x, "second": y}));
+                            } else if x["validate"] != y["validate"] {
+                                out.label("history_separated");
+                            }
+                        }
                     }
                 }
             }
